@@ -103,6 +103,15 @@ mod verif_c01_wit {
             let (a, b): (Vec<usize>, Vec<usize>) = (r.routes[i].iter().map(|e| e.edge_id.0).collect(), r.routes[j].iter().map(|e| e.edge_id.0).collect());
             assert!(a != b, "no two routes have the same edge sequence");
         } }
+        // C13 "without turning an answerable query into an error": a dead-end spur (1 -> 3) hangs off a vertex that both trees reach; vertex 3 is in the forward tree only and must
+        // never be tried as a via vertex (the reverse tree cannot be backtracked from it)
+        let g = W::graph(6, &[(0, 1, 1.0), (1, 2, 1.0), (2, 4, 1.0), (1, 3, 0.5), (0, 5, 2.0), (5, 4, 1.5)]);
+        let si = W::instance(g, Arc::new(NoRestriction {}), TerminationModel::IterationsLimit { limit: 10000 });
+        let alg = SearchAlgorithm::KspSingleVia { k: 3, underlying: Box::new(SearchAlgorithm::Dijkstra), similarity: None, termination: None };
+        let r = alg.run_vertex_oriented(VertexId(0), Some(VertexId(4)), &q, &Direction::Forward, &si).expect("the destination is reachable: the query must not end in an error");
+        assert!(!r.routes.is_empty() && r.routes.len() <= 3);
+        assert_eq!(r.routes[0].iter().map(|e| e.edge_id.0).collect::<Vec<_>>(), vec![0, 1, 2]);
+        for route in r.routes.iter() { check_walk(&si, route, VertexId(0), VertexId(4)); }
     }
 
     /// an access model whose effect depends on the PAIR (previous edge, next edge): it adds 1000 * previous id + next id metres
